@@ -15,6 +15,7 @@ the grammar with the generated table on disk.
 from __future__ import annotations
 
 import ast
+import re
 import keyword
 import token as pytoken
 
@@ -431,7 +432,23 @@ def check(ctx):
                 except (ValueError, SyntaxError):
                     sig = None
         if thorough:
-            ctx.ob("R9", tbl, "the table's recorded grammar signature equals the signature of the working tree's grammar (the shell loads the table with optimize=True, i.e. without this check)", sig == g["signature"], key="stale-parser-table")
+            # PLY's signature string concatenates the docstrings in (line, file, name) order over *all* parser
+            # files, so an edit that only shifts line numbers in one file permutes it.  What makes a table stale
+            # is a different set of productions / action bindings, which is compared order-insensitively here.
+            ok9 = sig == g["signature"]
+            detail9 = None
+            if not ok9:
+                m9 = re.search(r"^_lr_productions = \[$(.*?)^\]$", src, re.S | re.M)
+                if m9 is None or sig is None:
+                    raise AnalysisError(f"{tbl}: cannot read _lr_signature / _lr_productions from the generated table")
+                on_disk = sorted((e[0], e[3]) for e in ast.literal_eval("[" + m9.group(1) + "]")[1:])
+                tree = sorted((f"{p_['lhs']} -> {' '.join(p_['rhs']) if p_['rhs'] else '<empty>'}", p_["func"]) for p_ in g["productions"])
+                ok9 = on_disk == tree and sorted(sig) == sorted(g["signature"])
+                if not ok9:
+                    only_disk = [x for x in on_disk if x not in tree][:3]
+                    only_tree = [x for x in tree if x not in on_disk][:3]
+                    detail9 = f"only in the table on disk: {only_disk}; only in the working tree: {only_tree}"
+            ctx.ob("R9", tbl, "the generated table on disk holds exactly the productions (and action bindings) of the working tree's grammar - compared as a set: PLY orders them by line number across files, so a pure line shift permutes the recorded signature without making the table wrong (the shell loads the table with optimize=True, i.e. without any check)", ok9, key="stale-parser-table", detail=detail9)
         else:
             ctx.ob("R9", tbl, "generated table present; signature comparison runs in the thorough tier", True)
     else:
